@@ -5,6 +5,25 @@
 use super::*;
 use crate::verif_tape as tape;
 
+/// RNG contract-stub (A-rng): every draw is an arbitrary value chosen by the verifier, so ALL random streams
+/// are explored; `draws` counts them (ghost).
+/// Progress obligation: the first `free` draws are arbitrary; afterwards the stream delivers `accept`, a draw the
+/// harness derives from the invariant (e.g. the index of an enabled, defined channel).  A retry loop therefore
+/// exits after at most free+1 iterations on these streams, and the existence of `accept` is exactly the
+/// "usable channel exists" part of the contract.  Unbounded rejection by an adversarial stream is excluded only
+/// by A-rng (fair RNG), which no deductive argument can replace.
+pub(crate) struct TapeRng { pub draws: u32, pub free: u32, pub accept: u32 }
+impl RngCore for TapeRng {
+    fn next_u32(&mut self) -> u32 {
+        self.draws += 1;
+        if self.draws <= self.free { tape::stub_u8() as u32 | ((tape::stub_u8() as u32) << 8) } else { self.accept }
+    }
+    fn next_u64(&mut self) -> u64 { self.next_u32() as u64 }
+    fn fill_bytes(&mut self, dest: &mut [u8]) { let mut i = 0; while i < dest.len() { dest[i] = 0; i += 1; } }
+    fn try_fill_bytes(&mut self, dest: &mut [u8]) -> Result<(), rand_core::Error> { self.fill_bytes(dest); Ok(()) }
+}
+
+
 pub(crate) const ALL_REGIONS: [Region; 9] = [
     Region::AS923_1, Region::AS923_2, Region::AS923_3, Region::AS923_4, Region::AU915,
     Region::EU868, Region::EU433, Region::IN865, Region::US915,
@@ -18,4 +37,89 @@ pub(crate) fn any_fresh_region() -> Configuration {
 /// region-defined data rate according to the region's own table (used on the spec side of contracts)
 pub(crate) fn dr_defined(c: &Configuration, dr: u8) -> bool {
     dr < NUM_DATARATES && c.get_datarate(dr).is_some()
+}
+
+// ================================================================================================
+// Region tables through the crate-internal API, all 9 regions (C04 totality, C09 power, C10 RX1/RX2 data rates)
+// ================================================================================================
+fn region_at(i: usize) -> Configuration { Configuration::new(ALL_REGIONS[i]) }
+fn is_dynamic(i: usize) -> bool { i != 4 && i != 8 }
+
+/// regional MaxEIRP (RP002): EU868 16, EU433 12 (12.15), IN865 30, AS923 16, US915 30, AU915 30 dBm
+pub(crate) fn spec_max_eirp(i: usize) -> u8 { match i { 0 | 1 | 2 | 3 => 16, 4 => 30, 5 => 16, 6 => 12, 7 => 30, _ => 30 } }
+
+// @verif props=C04,C09 obligation=Configuration::check_tx_power.contract label=proved-complete tier=quick
+#[kani::proof]
+fn c09_check_tx_power_all_regions() {
+    tape::init();
+    let i = tape::below(9);
+    let r = region_at(i);
+    let p = tape::u8();
+    match r.check_tx_power(p) {
+        Some(Some(dbm)) => {
+            assert!(dbm <= spec_max_eirp(i), "C09 a TX power index never maps above the regional maximum EIRP");
+            assert!(p <= 14, "TXPower 15 / RFU indices are not accepted");
+            // RP002: TXPower n = MaxEIRP - 2n dB (US915 additionally capped at the 21 dBm conducted limit)
+            let want = spec_max_eirp(i) as i32 - 2 * p as i32;
+            assert!(dbm as i32 == want || (i == 8 && dbm == 21 && want > 21), "C09 TXPower n = MaxEIRP - 2n");
+        }
+        Some(None) => assert!(false, "check_tx_power never answers 'keep current' by itself"),
+        None => {}
+    }
+    kani::cover!(r.check_tx_power(p).is_none(), "verif-reached: refused");
+    kani::cover!(r.check_tx_power(p).is_some(), "verif-reached: accepted");
+}
+
+// @verif props=C04,C08 obligation=Configuration::rx1_dr_offset_validate/frequency_valid.total label=proved-complete tier=quick
+#[kani::proof]
+fn c04_region_validators_total() {
+    tape::init();
+    let i = tape::below(9);
+    let r = region_at(i);
+    let v = tape::u8();
+    let o = r.rx1_dr_offset_validate(v);
+    assert!(o.is_none() || o == Some(v), "rx1_dr_offset_validate returns its argument or nothing");
+    let max = match i { 0 | 1 | 2 | 3 | 7 => 7, 4 | 5 | 6 => 5, _ => 3 };   // RP002 RX1DROffset ranges
+    assert!(o.is_some() == (v <= max), "C08 RX1DROffset accepted exactly inside the regional range");
+    let f = tape::u32();
+    let _ = r.frequency_valid(f);
+    let _ = r.has_fixed_channel_plan();
+    let _ = r.get_rx2_frequency();
+    kani::cover!(o.is_some(), "verif-reached: offset ok");
+    kani::cover!(o.is_none(), "verif-reached: offset refused");
+}
+
+/// RP002 RX1 data rate tables, where I can state them with confidence offline (DESIGN C10)
+pub(crate) fn spec_rx1_dr(i: usize, up: u8, off: u8) -> Option<u8> {
+    let (up_i, off_i) = (up as i32, off as i32);
+    match i {
+        5 | 6 => if up <= 5 && off <= 5 { Some((up_i - off_i).max(0) as u8) } else { None },                // EU868 / EU433
+        8 => if up <= 4 && off <= 3 { Some((10 + up_i - off_i).clamp(8, 13) as u8) } else { None },        // US915
+        4 => if up <= 6 && off <= 5 { Some((8 + up_i - off_i).clamp(8, 13) as u8) } else { None },         // AU915
+        _ => if up <= 5 && off <= 5 { Some((up_i - off_i).max(0) as u8) } else { None },                   // AS923-x / IN865 (dwell time 0)
+    }
+}
+
+// @verif props=C04,C10 obligation=Configuration::get_rx_datarate.contract label=proved-complete tier=quick
+#[kani::proof]
+fn c10_get_rx_datarate_all_regions() {
+    tape::init();
+    let i = tape::below(9);
+    let r = region_at(i);
+    let up = tape::u8() & 0x0f;
+    let off = tape::u8();
+    kani::assume(r.rx1_dr_offset_validate(off).is_some());      // wf_conf: the stored offset was validated
+    let w1 = r.get_rx_datarate(DR::from(up), off, &Window::_1) as u8;
+    let w2 = r.get_rx_datarate(DR::from(up), off, &Window::_2) as u8;
+    if let Some(want) = spec_rx1_dr(i, up, off) {
+        assert!(w1 == want, "C10 RX1 data rate == regional table(uplink DR, RX1DROffset)");
+    }
+    // RX2 default data rate per RP002: EU868 DR0, EU433 DR0, IN865 DR2, AS923 DR2, US915 DR8, AU915 DR8
+    let want2 = match i { 5 | 6 => 0, 4 | 8 => 8, _ => 2 };
+    assert!(w2 == want2 && dr_defined(&r, w2), "C10 regional default RX2 data rate, and it is region-defined");
+    // whatever the table says, the window uses a region-defined LoRa rate after the documented fall-back
+    let used = if dr_defined(&r, w1) { w1 } else { w2 };
+    assert!(dr_defined(&r, used), "C10 every window uses a LoRa data rate the region defines");
+    kani::cover!(!dr_defined(&r, w1), "verif-reached: fall-back needed");
+    kani::cover!(dr_defined(&r, w1), "verif-reached: table hit");
 }
